@@ -67,6 +67,30 @@ func probe() {
 		{Name: "A", URL: u, Procs: []Proc{filt("F1")}, Req: []Conn{s2p("F1"), p2s("F1", "hit")}, Res: []Conn{s2s()}}},
 		Quotas: []QuotaCfg{{"q1", u, "fixed", 1000000}, {"q2", u, "concurrent", 1000000}, {"q3", u, "concurrent", 1000000}}},
 		[]Txn{{Dir: "req", URL: u, Headers: all}, {Dir: "res", URL: u, Headers: all}}})
+	ab := []string{"x-a-k", "x-b-k", "x-f1", "x-w"}
+	cases = append(cases,
+		pc{"A uses B.k and declares its own k (Filter/Filter)", Config{Flows: []FlowCfg{
+			{Name: "A", URL: u, Procs: []Proc{filt("f1"), filtH("k", "x-a-k"), filt("w")},
+				Req: []Conn{s2p("f1"), p2p("f1", "hit", "B.k"), p2s("B.k", "hit")},
+				Res: []Conn{s2p("k"), p2s("k", "hit")}},
+			{Name: "B", URL: "c04.test/other", Procs: []Proc{filtH("k", "x-b-k")},
+				Req: []Conn{s2p("k"), p2s("k", "hit")}, Res: []Conn{s2s()}}}},
+			[]Txn{{Dir: "req", URL: u, Headers: []string{"x-f1", "x-a-k"}}, {Dir: "req", URL: u, Headers: []string{"x-f1", "x-b-k"}}, {Dir: "res", URL: u, Headers: ab}}},
+		pc{"A uses B.k (Filter) and declares its own k (Gen)", Config{Flows: []FlowCfg{
+			{Name: "A", URL: u, Procs: []Proc{filt("f1"), genS("k", 503), filt("w")},
+				Req: []Conn{s2p("f1"), p2p("f1", "hit", "B.k"), p2s("B.k", "hit"), p2p("f1", "miss", "k")},
+				Res: []Conn{s2p("w"), p2s("w", "hit"), p2s("k", "")}},
+			{Name: "B", URL: "c04.test/other", Procs: []Proc{filtH("k", "x-b-k")},
+				Req: []Conn{s2p("k"), p2s("k", "hit")}, Res: []Conn{s2s()}}}},
+			[]Txn{{Dir: "req", URL: u, Headers: []string{"x-f1", "x-b-k"}}, {Dir: "req", URL: u, Headers: nil}}},
+		pc{"A uses B.k (Gen) and declares its own k (Gen)", Config{Flows: []FlowCfg{
+			{Name: "A", URL: u, Procs: []Proc{filt("f1"), genS("k", 503), filt("w")},
+				Req: []Conn{s2p("f1"), p2p("f1", "hit", "B.k"), p2p("f1", "miss", "k")},
+				Res: []Conn{s2p("w"), p2s("w", "hit"), p2s("k", ""), p2s("B.k", "")}},
+			{Name: "B", URL: u, Procs: []Proc{filt("f2"), genS("k", 418)},
+				Req: []Conn{s2p("f2"), p2p("f2", "hit", "k"), p2s("f2", "miss")}, Res: []Conn{p2s("k", "")}}}},
+			[]Txn{{Dir: "req", URL: u, Headers: []string{"x-f1"}}, {Dir: "req", URL: u, Headers: nil}, {Dir: "req", URL: u, Headers: []string{"x-f2"}}}},
+	)
 	for _, k := range cases {
 		fmt.Println("=====", k.name)
 		st, err := Load(&k.cfg)
@@ -79,7 +103,7 @@ func probe() {
 		fmt.Println("graph", string(b), err)
 		for _, t := range k.txns {
 			Run(st, &t)
-			fmt.Println(t.Dir, t.Headers, "->", t.Events, t.Result, t.ErrText, "sel", t.SelReq, t.SelRes)
+			fmt.Println(t.Dir, t.Headers, "->", t.Events, t.Early, t.Result, t.ErrText, "sel", t.SelReq, t.SelRes)
 		}
 	}
 }
